@@ -153,10 +153,10 @@ func (f *File) Sync() error {
 }
 
 func (f *File) Readdir(count int) (res []os.FileInfo, err error) {
-	if !f.fileData.dir {
+	if !f.Info().IsDir() {
 		return nil, &os.PathError{
 			Op:   "readdir",
-			Path: f.fileData.name,
+			Path: f.fileData.Name(),
 			Err:  errors.New("not a dir"),
 		}
 	}
@@ -238,7 +238,7 @@ func (f *File) Read(b []byte) (n int, err error) {
 
 func (f *File) ReadAt(b []byte, off int64) (n int, err error) {
 	if off < 0 {
-		return 0, &os.PathError{Op: "readat", Path: f.fileData.name, Err: errors.New("negative offset")}
+		return 0, &os.PathError{Op: "readat", Path: f.fileData.Name(), Err: errors.New("negative offset")}
 	}
 	prev := atomic.LoadInt64(&f.at)
 	atomic.StoreInt64(&f.at, off)
@@ -258,7 +258,7 @@ func (f *File) Truncate(size int64) error {
 	if f.readOnly {
 		return &os.PathError{
 			Op:   "truncate",
-			Path: f.fileData.name,
+			Path: f.fileData.Name(),
 			Err:  errors.New("file handle is read only"),
 		}
 	}
@@ -293,7 +293,7 @@ func (f *File) Seek(offset int64, whence int) (int64, error) {
 		f.fileData.Unlock()
 	}
 	if pos < 0 {
-		return 0, &os.PathError{Op: "seek", Path: f.fileData.name, Err: errors.New("negative position")}
+		return 0, &os.PathError{Op: "seek", Path: f.fileData.Name(), Err: errors.New("negative position")}
 	}
 	atomic.StoreInt64(&f.at, pos)
 	return pos, nil
@@ -306,7 +306,7 @@ func (f *File) Write(b []byte) (n int, err error) {
 	if f.readOnly {
 		return 0, &os.PathError{
 			Op:   "write",
-			Path: f.fileData.name,
+			Path: f.fileData.Name(),
 			Err:  errors.New("file handle is read only"),
 		}
 	}
@@ -341,7 +341,7 @@ func (f *File) Write(b []byte) (n int, err error) {
 
 func (f *File) WriteAt(b []byte, off int64) (n int, err error) {
 	if off < 0 {
-		return 0, &os.PathError{Op: "writeat", Path: f.fileData.name, Err: errors.New("negative offset")}
+		return 0, &os.PathError{Op: "writeat", Path: f.fileData.Name(), Err: errors.New("negative offset")}
 	}
 	// like os.File.WriteAt, a positional write leaves the file offset alone
 	prev := atomic.LoadInt64(&f.at)
